@@ -33,6 +33,7 @@ impl Drop for Gen {
         if let Ok(mut t) = self.model.top.try_borrow_mut() {
             t.vars.clear();
         }
+        crate::model::release_scopes();
     }
 }
 
@@ -87,6 +88,8 @@ impl Gen {
             no_raise,
             must_terminate,
             hidden_state: false,
+            swallow_probe: None,
+            swallow_thrower: None,
         });
     }
 
@@ -168,6 +171,8 @@ impl Gen {
                     no_raise: false,
                     must_terminate: false,
                     hidden_state: false,
+                    swallow_probe: None,
+                    swallow_thrower: None,
                 });
                 self.lambda_writes.extend(crate::freevars::lambda_free_writes(&self.script.stmts.last().unwrap().ex));
                 let had_hidden = self.hidden_cells;
